@@ -12,6 +12,8 @@ Monitor names (the clause of the property they decide):
 * `merkle_root_eq`                         persisted FileMerkleRoot = MetaRoot(list)                     (C03)
 * `failed_commit_noop`                     a rejected / failed modification changed list, revision or cache (C03)
 * `restart_same`                           a fresh manager on the same database serves a different list  (C03)
+* `three_lists_equal/lock_view`            the roots handed to a session by Lock/ReviseContract resp. LockV2Contract are not
+                                           the ones the revision handed over commits to / not the implied ones (C03)
 * `renewal/list_handover`                  successor's list / size / root differ from the predecessor's  (C13)
 * `renewal/links_mutual`                   renewed_to / renewed_from not mutual                          (C13)
 * `renewal/roots_referenced`               a root of the predecessor lost its last reference             (C13)
@@ -187,6 +189,46 @@ def lock2Verdicts (d : DState) (id : Nat) (renewed revisable : Bool) (m : Option
     | some (mr, mv, _) => cmp "renewed" (toString mr) (toString renewed) ++ cmp "revisable" (toString mv) (toString revisable)
     | none => [.mismatch "lk" "notfound" "ok"]
 
+/-- what a session was handed when it acquired the contract lock (the `v*` fields of a line) -/
+structure View where
+  rn     : Nat
+  fs     : Nat
+  rootok : Bool
+  roots  : List Nat
+
+def parseView (kv : List (String × String)) : Option View := do
+  let rn ← getNat kv "vrn"
+  let fs ← getNat kv "vfs"
+  let ok ← getNat kv "vrootok"
+  let roots ← getNatList kv "vroots"
+  pure { rn, fs, rootok := ok == 1, roots }
+
+/-- `three_lists_equal` at the observation point "value returned by Lock / LockV2Contract": for a contract that
+is not superseded the roots handed over are the ones the revision handed over commits to (size, Merkle root)
+and the ones implied by the accepted modifications; then the comparison with the model's view. -/
+def viewVerdicts (d : DState) (l : Line) (id : Nat) (live : Bool) (m : Option (Rev HH × List Root)) : List Verdict :=
+  match parseView l.obs with
+  | none => []
+  | some v =>
+    if !live then [] else
+    let mon : List Verdict :=
+      (if v.fs == P.sectorSize * v.roots.length && v.rootok then [] else
+        [.monitor "three_lists_equal/lock_view"
+          s!"c={id},revision(rn={v.rn},filesize={v.fs},rootok={v.rootok}) does not commit to the roots handed over {showNatList v.roots}"]) ++
+      (match assocGet d.implied id with
+       | some imp => if imp == v.roots then [] else
+          [.monitor "three_lists_equal/lock_view" s!"c={id},implied={showNatList imp},handed_over={showNatList v.roots}"]
+       | none => [])
+    if !mon.isEmpty then mon else
+    match m with
+    | some (rev, roots) =>
+      cmp "vrn" (toString rev.number) (toString v.rn) ++ cmp "vfs" (toString rev.filesize) (toString v.fs) ++
+      cmp "vroots" (showNatList roots) (showNatList v.roots)
+    | none => [.mismatch "view" "none" "some"]
+
+def modelViewV2 (w : World HH) (id : Nat) : Option (Rev HH × List Root) :=
+  (lockViewV2 w id true).map fun (rev, _, _, roots) => (rev, roots)
+
 def wrapSize (x : Int) : Nat := if x < 0 then (x + 18446744073709551616).toNat else x.toNat
 
 def finish (d : DState) (vs : List Verdict) : DState × List Verdict :=
@@ -250,18 +292,19 @@ def step (d : DState) (l : Line) : DState × List Verdict :=
     match getNat l.args "c", getStr l.obs "lock", parseCObs l.obs "" with
     | some id, some lk, some o =>
       let vs := lock1Verdicts d id (lk == "ok") (lockV1 d.w P id) ++ unchanged "failed_commit_noop" d id o
+      let vs := if vs.isEmpty then viewVerdicts d l id (lk == "ok") (lockViewV1 P d.w id) else vs
       let vs := if vs.isEmpty then cmpObs "" (modelObs d.w id) o else vs
       let d := if lk == "ok" then d else { d with refusals := d.refusals + 1 }
       finish (remember d id o) vs
     | _, _, _ => (d, [.badline "lock1 fields"])
   else if l.op == "lock2" then
-    match getNat l.args "c", getStr l.obs "lk", getNat l.obs "renewed", getNat l.obs "revisable", getNatList l.obs "roots", parseCObs l.obs "" with
-    | some id, some lk, some rn, some rv, some roots, some o =>
+    match getNat l.args "c", getStr l.obs "lk", getNat l.obs "renewed", getNat l.obs "revisable", parseCObs l.obs "" with
+    | some id, some lk, some rn, some rv, some o =>
       let m := lockV2 d.w id true
       let vs :=
         if lk == "ok" then
-          lock2Verdicts d id (rn == 1) (rv == 1) m ++
-          (if roots == o.mem then [] else [.mismatch "lockroots" (showNatList o.mem) (showNatList roots)])
+          let lv := lock2Verdicts d id (rn == 1) (rv == 1) m
+          if lv.isEmpty then viewVerdicts d l id (rn == 0) (modelViewV2 d.w id) else lv
         else match m with
           | none => []
           | some _ => [.mismatch "lk" "ok" lk]
@@ -269,13 +312,14 @@ def step (d : DState) (l : Line) : DState × List Verdict :=
       let vs := if vs.isEmpty then cmpObs "" (modelObs d.w id) o else vs
       let d := if rv == 1 then d else { d with refusals := d.refusals + 1 }
       finish (remember d id o) vs
-    | _, _, _, _, _, _ => (d, [.badline "lock2 fields"])
+    | _, _, _, _, _ => (d, [.badline "lock2 fields"])
   else if l.op == "rpc1" then
     match getNat l.args "c", getActions l.args "acts", getNat l.args "rn", getNat l.args "abort",
           getStr l.obs "lock", getStr l.obs "res", getNatList l.obs "uok", parseCObs l.obs "" with
     | some id, some acts, some rn, some abort, some lk, some res, some uok, some o =>
       let mlock := lockV1 d.w P id
       let lv := lock1Verdicts d id (lk == "ok") mlock
+      let lv := if lv.isEmpty then viewVerdicts d l id (lk == "ok") (lockViewV1 P d.w id) else lv
       if lk != "ok" || !lv.isEmpty then
         let vs := lv ++ unchanged "failed_commit_noop" d id o
         let vs := if vs.isEmpty then cmpObs "" (modelObs d.w id) o else vs
@@ -309,6 +353,7 @@ def step (d : DState) (l : Line) : DState × List Verdict :=
         finish (remember d id o) vs
       else
         let lv := lock2Verdicts d id (renewed == 1) (revisable == 1) (lockV2 d.w id true)
+        let lv := if lv.isEmpty then viewVerdicts d l id (renewed == 0) (modelViewV2 d.w id) else lv
         let r : V2Revision HH :=
           { rev := { number := rn, filesize := wrapSize ((P.sectorSize * roots.length : Nat) + fsd * (P.sectorSize : Nat)),
                      capacity := cap * P.sectorSize, merkle := if badroot == 1 then none else some roots },
@@ -338,11 +383,15 @@ def step (d : DState) (l : Line) : DState × List Verdict :=
             if lk != "ok" then (false, match lockV2 d.w id true with | none => [] | some _ => [.mismatch "lk" "ok" lk])
             else
               let force := getNat l.args "force" == some 1
-              ((rn == 0 && rv == 1) || force, lock2Verdicts d id (rn == 1) (rv == 1) (lockV2 d.w id true))
+              let lv := lock2Verdicts d id (rn == 1) (rv == 1) (lockV2 d.w id true)
+              ((rn == 0 && rv == 1) || force,
+               if lv.isEmpty then viewVerdicts d l id (rn == 0) (modelViewV2 d.w id) else lv)
           | _, _, _ => (false, [.badline "renew2 lock fields"])
         else
           match getStr l.obs "lock" with
-          | some lk => (lk == "ok", lock1Verdicts d id (lk == "ok") (lockV1 d.w P id))
+          | some lk =>
+            let lv := lock1Verdicts d id (lk == "ok") (lockV1 d.w P id)
+            (lk == "ok", if lv.isEmpty then viewVerdicts d l id (lk == "ok") (lockViewV1 P d.w id) else lv)
           | none => (false, [.badline "renew1 lock fields"])
       -- a v2 renewal id is a function of the predecessor's id: renewing twice yields the same successor id
       let nid := if v2 then v2SuccessorId d.w id nid0 else nid0
